@@ -1,6 +1,7 @@
 // C18 — every XML parameter reaches the simulation with its value and meaning intact (engine E2).
 // Sentinel parameter sets (every tag a distinct value) x notations x numbers of cell/face types x tag orders; every single omitted tag;
 // every single sign-violating value; wiring of the values into a real solver.
+#include "simulation_initializer.hpp"
 #include "solver_world.hpp"
 #include "parameter_reader.hpp"
 #include <filesystem>
@@ -107,6 +108,39 @@ static std::vector<SignCase> sign_violations() { std::vector<SignCase> v;
 static void set_tag(Tags& t, const std::string& k, const std::string& v) { for (auto& x : t) if (x.first == k) x.second = v; }
 static void del_tag(Tags& t, const std::string& k) { for (size_t i = 0; i < t.size(); i++) if (t[i].first == k) { t.erase(t.begin() + i); return; } }
 
+
+// 4. the initialisation entry points: the switch written in the file decides whether the cells handed to the solver are the surfaces of the mesh file or re-triangulated ones, and the
+// XML entry point behaves exactly like the structure entry point fed with what the reader returns for the same file
+static std::string octa_vtk(int ncell) {
+    std::ostringstream o; o << "# vtk DataFile Version 4.2\nvtk output\nASCII\nDATASET UNSTRUCTURED_GRID\nPOINTS " << 6 * ncell << " float\n";
+    double P[6][3] = {{1, 0, 0}, {-1, 0, 0}, {0, 1, 0}, {0, -1, 0}, {0, 0, 1}, {0, 0, -1}}; for (int c = 0; c < ncell; c++) { for (int i = 0; i < 6; i++) o << P[i][0] + 3.5 * c << " " << P[i][1] << " " << P[i][2] << " "; o << "\n"; }
+    int T[8][3] = {{0, 2, 4}, {2, 1, 4}, {1, 3, 4}, {3, 0, 4}, {2, 0, 5}, {1, 2, 5}, {3, 1, 5}, {0, 3, 5}};
+    o << "\nCELLS " << ncell << " " << 34 * ncell << "\n"; for (int c = 0; c < ncell; c++) { o << "33 8 "; for (auto& t : T) o << "3 " << t[0] + 6 * c << " " << t[1] + 6 * c << " " << t[2] + 6 * c << " "; o << "\n"; }
+    o << "\nCELL_TYPES " << ncell << "\n"; for (int c = 0; c < ncell; c++) o << "42\n"; o << "\nCELL_DATA " << ncell << "\nFIELD FieldData 1\ncell_type_id 1 " << ncell << " int\n"; for (int c = 0; c < ncell; c++) o << "0 "; o << "\n"; return o.str(); }
+struct InitOut { bool threw = false; std::string what; bool flag = false; std::vector<std::pair<unsigned, unsigned>> counts; };
+static std::string check_initialisation(Result& R, long& cases) {
+    char buf[400]; const std::string mesh_path = sw::scratch_root() + "/c18_in.vtk";
+    for (int ncell = 1; ncell <= 2; ncell++) for (int lm = 0; lm < 2; lm++) { { std::ofstream f(mesh_path); f << octa_vtk(ncell); }
+        InitOut out[2][2];
+        for (int flag = 0; flag < 2; flag++) { Doc d = make_doc(1, 2, 0, -1); set_tag(d.num, "input_mesh_file_path", mesh_path); set_tag(d.num, "output_mesh_folder_path", sw::scratch_root() + "/c18_out"); set_tag(d.num, "perform_initial_triangulation", flag ? "1" : "0");
+            set_tag(d.num, "min_edge_length", lm ? "0.2" : "0.35"); set_tag(d.num, "contact_cutoff_adhesion", "0.05"); set_tag(d.num, "contact_cutoff_repulsion", "0.05");
+            std::string xml = to_xml(d, 0); if (g_R) g_R->distinct_case(xml + "|init"); { std::ofstream f(g_path); f << xml; }
+            for (int entry = 0; entry < 2; entry++) { InitOut& o = out[flag][entry]; cases++;
+                try { std::unique_ptr<simulation_initializer> si; srand(12345); simucell3d_verif::reset_rng_counters();   /* the sampling seeds and the rand() state of the ball-pivoting shuffle are owned by the harness: the two entry points start from the same ones */
+                    if (entry == 0) si.reset(new simulation_initializer(g_path, false));
+                    else { parameter_reader rd(g_path); global_simulation_parameters sp = rd.read_numerical_parameters(); auto types = rd.read_biomechanical_parameters(); si.reset(new simulation_initializer(sp, types, false)); }
+                    o.flag = si->get_simulation_parameters().perform_initial_triangulation_; for (auto& c : si->get_cell_lst()) o.counts.push_back({c->get_nb_of_nodes(), c->get_nb_of_faces()});
+                } catch (std::exception& e) { o.threw = true; o.what = e.what(); }
+                const char* en = entry ? "structure entry point" : "XML entry point";
+                if (o.threw) { snprintf(buf, sizeof buf, "INTERNAL initialisation threw (%s, switch %d, %d cells): %s", en, flag, ncell, o.what.c_str()); return buf; }
+                if (o.flag != (flag != 0)) { snprintf(buf, sizeof buf, "run-not-governed-by-the-written-value: perform_initial_triangulation written %d, the parameters handed to the solver by the %s say %d", flag, en, (int)o.flag); return buf; }
+                if ((int)o.counts.size() != ncell) { snprintf(buf, sizeof buf, "run-not-governed-by-the-written-value: %d cells in the mesh file, %zu initialised (%s)", ncell, o.counts.size(), en); return buf; }
+                for (int c = 0; c < ncell; c++) { const bool as_file = o.counts[c].first == 6 && o.counts[c].second == 8;
+                    if (!flag && !as_file) { snprintf(buf, sizeof buf, "run-not-governed-by-the-written-value: perform_initial_triangulation written 0, yet cell %d handed to the solver by the %s has %u nodes and %u faces (mesh file: 6 and 8)", c, en, o.counts[c].first, o.counts[c].second); return buf; }
+                    if (flag && o.counts[c].second <= 8) { snprintf(buf, sizeof buf, "run-not-governed-by-the-written-value: perform_initial_triangulation written 1, yet cell %d handed to the solver by the %s is still the surface of the mesh file (%u nodes, %u faces)", c, en, o.counts[c].first, o.counts[c].second); return buf; } } }
+            if (out[flag][0].counts != out[flag][1].counts) { snprintf(buf, sizeof buf, "run-not-governed-by-the-written-value: with switch %d the XML entry point and the structure entry point initialise different cells from the same file (first cell %u/%u faces)", flag, out[flag][0].counts[0].second, out[flag][1].counts[0].second); return buf; } } }
+    return ""; }
+
 static void explore(Result& R) {
     g_R = &R;
     std::filesystem::create_directories(sw::scratch_root()); g_path = sw::scratch_root() + "/params.xml"; long cases = 0, rejected = 0;
@@ -132,6 +166,7 @@ static void explore(Result& R) {
             ReadOut r = read_doc(to_xml(d, 0)); cases++; if (r.threw && r.right_type) { rejected++; continue; }
             std::string what = v.tag + "=" + v.value; std::string e = r.threw ? ("sign-violating-value-raises-the-wrong-exception-type: " + what + ": " + r.what) : ("sign-violating-value-not-rejected: " + what + " (the reader's own diagnostics state the constraint)");
             R.violation(clause_of(e) + "|" + v.tag, e, "mode=sign\ntag=" + v.tag + "\nvalue=" + v.value + "\n"); } }
+    { std::string e = check_initialisation(R, cases); if (e.rfind("INTERNAL", 0) == 0) { R.internal_error = e; return; } if (!e.empty()) R.violation(clause_of(e) + "|initialisation", e, "mode=initialisation\n"); }
     sw::cleanup_scratch();
     R["evaluations"] = cases; R["states"] = cases; R["transitions"] = cases; R["distinct_nontrivial"] = cases; R["traces_validated_against_impl"] = cases; R["files_rejected_as_expected"] = rejected;
     R.strings["rule"] = "distinct_nontrivial = number of DISTINCT parameter file texts handed to the real reader (hashed); a case = one generated parameter file: sentinel files (every tag a distinct exactly representable value; 1-3 cell types x 1-3 face types x plain/scientific/upper-case-E notation x INF spellings x identity/reversed/rotated tag order) compared field by field with strtod of the written text and with a solver built from them; every single omitted tag / section and every single value violating a constraint stated by the reader's own diagnostics must raise parameter_reader_exception";
